@@ -48,7 +48,10 @@ const EngineDef* find_engine(const std::string& name);
 // engines (X-macro: name -> void engine_<name>(RunCtx&))
 #define ENGINE_LIST \
     ENGINE_DECL(pipeline) \
-    ENGINE_DECL(fault)
+    ENGINE_DECL(fault) \
+    ENGINE_DECL(eof) \
+    ENGINE_DECL(decode) \
+    ENGINE_DECL(reencode)
 #define ENGINE_DECL(n) void engine_##n(RunCtx&);
 ENGINE_LIST
 #undef ENGINE_DECL
